@@ -27,7 +27,11 @@ class Comp:
             self.samples.append(sample)
 
     def issue(self, what, layer, replay, **kw):
-        if len(self.issues) < 50:
+        known = kw.get('known')
+        n_known = sum(1 for i in self.issues if i.get('known'))
+        n_this = sum(1 for i in self.issues if i.get('known') == known) if known else 0
+        n_new = len(self.issues) - n_known
+        if (known and n_this < 8) or (not known and n_new < 50):
             d = dict(what=what, layer=layer, replay=replay)
             d.update(kw)
             self.issues.append(d)
